@@ -313,3 +313,17 @@ package ugo
 //@ loop 0 invariant numParams <= i && vm.sp == old(vm.sp) && vm.curFrame == old(vm.curFrame) && vm.ip == old(vm.ip) && vm.frameIndex == old(vm.frameIndex)
 //@ loop 1 invariant i <= vm.sp && vm.sp == old(vm.sp) && vm.curFrame == old(vm.curFrame)
 //@ property C03
+
+//@ func ReadOperands
+//@ params numOperands ins operands
+//@ results out offset
+//@ requires specWidthsOK(numOperands) && len(ins) >= specWidthsSum(numOperands) && verifrt.Disjoint(operands, numOperands)
+//@ ensures[offset] offset == specWidthsSum(numOperands)
+//@ ensures[len]    len(out) == len(numOperands)
+//@ ensures[vals]   forall i int :: 0 <= i && i < len(numOperands) ==> out[i] == specReadAt(ins, numOperands, i)
+//@ ensures[widths] verifrt.Disjoint(out, numOperands)
+//@ loop 0 invariant len(operands) == verifIdx && offset == specOffsetOf(numOperands, verifIdx) && 0 <= verifIdx && verifIdx <= len(numOperands)
+//@ loop 0 invariant forall k int :: 0 <= k && k < verifIdx ==> operands[k] == specReadAt(ins, numOperands, k)
+//@ loop 0 invariant verifrt.Disjoint(operands, numOperands)
+//@ modifies operands[*]
+//@ property C05 C11 C18
